@@ -4,6 +4,24 @@ MODULES = ["CobyqaVerif.Props.C07", "CobyqaVerif.Props.C07Point", "CobyqaVerif.P
 LEVEL = "proof"
 
 
+def extra(chk, verdicts):
+    runlevel.request_met_by_result(chk, verdicts, "C07")
+    # the message of every result is the documented one for its status (the table of the docstring of minimize)
+    n = 0
+    for s, v in verdicts:
+        if s.get("status") is None:
+            continue
+        n += 1
+        doc = s.get("message_documented")
+        msg = (s.get("message") or "").strip().rstrip(".")
+        if doc is None or msg != doc:
+            chk.violation({"property": "C07", "kind": "spec-fails-on-implementation", "desc": s["desc"], "inject": s["inject"],
+                           "failure": f"status {s['status']} is reported with the message {s.get('message')!r}; the documented one is {doc!r}",
+                           "result": {k: s.get(k) for k in ("status", "nfev", "nit", "success")},
+                           "signature": {"failure": "message-not-the-documented-one", "status": s["status"]}})
+    chk.coverage["results_whose_message_was_compared_with_the_documented_one"] = n
+
+
 def run(chk, rng, replay=None):
-    runlevel.run_check(chk, rng, replay, "C07", MODULES, "C07", 350, 5000, {"C07"}, p_inject=0.1, extra=lambda chk, verdicts: runlevel.request_met_by_result(chk, verdicts, "C07"),
+    runlevel.run_check(chk, rng, replay, "C07", MODULES, "C07", 350, 5000, {"C07"}, p_inject=0.1, extra=extra,
                        doc="the status passed to the result matches the event that ended the run, the success flag follows the documented rule, status 0 only with resolution <= radius_final, 5 only with nfev = maxfev, 6 only with nit = maxiter, -1 / 2 only for inconsistent / all-fixed bounds")
